@@ -47,9 +47,14 @@ def h_instrsize(ctx, cfg):
     a = ctx.input("arg", SymInt.fresh("arg"))
     ctx.assume(z3.And(a.z >= -TWO31, a.z < TWO32), "pre: operand fits CPython's 32-bit oparg")
     n = f(a)
+    u = spec_unsigned(a.z)
+    if isinstance(n, SymInt):        # a closed-form computation instead of a case split: the same three clauses, by cases on the symbolic result
+        ctx.prove("post.size_in_1..4", z3.And(n.z >= 1, n.z <= 4))
+        ctx.prove("post.operand_fits_in_n_bytes", z3.And(*[z3.Implies(n.z == k, u < 256 ** k) for k in (1, 2, 3, 4)]))
+        ctx.prove("post.n_is_minimal", z3.And(*[z3.Implies(n.z == k, u >= 256 ** (k - 1)) for k in (2, 3, 4)]))
+        return
     if not isinstance(n, int):
         raise Unsupported("symbolic size")
-    u = spec_unsigned(a.z)
     ctx.prove("post.size_in_1..4", z3.BoolVal(1 <= n <= 4))
     ctx.prove("post.operand_fits_in_n_bytes", u < 256 ** n)
     ctx.prove("post.n_is_minimal", z3.BoolVal(True) if n == 1 else u >= 256 ** (n - 1))
@@ -62,7 +67,7 @@ def h_instrsize_mono(ctx, cfg):
     a, b = ctx.input("a", SymInt.fresh("a")), ctx.input("b", SymInt.fresh("b"))
     ctx.assume(z3.And(a.z >= 0, a.z <= b.z), "pre")
     na, nb = f(a), f(b)
-    ctx.prove("post.monotone", z3.BoolVal(na <= nb))
+    ctx.prove("post.monotone", (zint(na) <= zint(nb)) if isinstance(na, SymInt) or isinstance(nb, SymInt) else z3.BoolVal(na <= nb))
 
 
 @harness("blocks._instrsize.canary", props=["C01", "C03"], functions=["code_data._blocks._instrsize"], configs="any", expect="failed",
@@ -71,7 +76,8 @@ def h_instrsize_canary(ctx, cfg):
     f = real("_instrsize")
     a = ctx.input("arg", SymInt.fresh("arg"))
     ctx.assume(z3.And(a.z >= -TWO31, a.z < TWO32))
-    ctx.prove("canary.size_is_always_1", z3.BoolVal(f(a) == 1))
+    n = f(a)
+    ctx.prove("canary.size_is_always_1", (n.z == 1) if isinstance(n, SymInt) else z3.BoolVal(n == 1))
 
 
 # --------------------------------------------------------------------------------------------------
